@@ -39,10 +39,17 @@ theorem mem_desired_iff {h : Hashing} {j : SyncIn} (hn : NormC h j) (o : Int) :
     o ∈ desired (replicasOf j.view) j.view.slots ↔ inRange (bOf j) (EOf j) o = true := by
   rw [desired_eq_idxOf _ _ hn.spec.r0]; exact mem_idxOf
 
-/-- what a policy has to provide for one world: the reconcile ends `.ok` and its calls satisfy `ActFacts` -/
+/-- what a policy has to provide for one world: the reconcile ends `.ok`, and the pods its calls leave are among those
+    that a list of calls satisfying `ActFacts` leaves (the calls themselves, or the calls without a final update-walk delete
+    that takes down a pod created in the same reconcile — the legacy boundary mode) -/
 structure Pol {h : Hashing} {j : SyncIn} (hn : NormC h j) : Prop where
   ok : hn.recon.2 = .ok
-  facts : ActFacts j.view hn.curRev.name hn.updRev.name (bOf j) (EOf j) j.pods hn.recon.1.acts
+  sub : ∃ A, ActFacts j.view hn.curRev.name hn.updRev.name (bOf j) (EOf j) j.pods A ∧
+    (nextRawG j.setName j.pods hn.recon.1.acts).Sublist (nextRawG j.setName j.pods A)
+
+theorem Pol.of_facts {h : Hashing} {j : SyncIn} {hn : NormC h j} (hok : hn.recon.2 = .ok)
+    (hf : ActFacts j.view hn.curRev.name hn.updRev.name (bOf j) (EOf j) j.pods hn.recon.1.acts) : Pol hn :=
+  ⟨hok, _, hf, List.Sublist.refl _⟩
 
 /-- the raw next pods of a normal world -/
 noncomputable def rawNext {h : Hashing} {j : SyncIn} (hn : NormC h j) : List CPod :=
@@ -132,7 +139,9 @@ theorem rawNext_pod (hs : NSC h j) (hp : Pol hs.norm) {y : CPod} (hy : y ∈ raw
     (inRange (bOf j) (EOf j) y.pod.ord = true ∨ ∃ c ∈ j.pods, c.pod.ord = y.pod.ord) ∧
     (y.pod.fs = true → ∃ c ∈ j.pods, c.pod.ord = y.pod.ord ∧ c.pod.fs = true) := by
   have hn := hs.norm
-  rcases nextRawG_mem hs.ctx hp.facts hy with ⟨c, hcm, _, hsame, hown, _, _⟩ | ⟨o, rev, hcr, rfl⟩
+  obtain ⟨A, hA, hsub⟩ := hp.sub
+  have hy' : y ∈ nextRawG j.setName j.pods A := hsub.subset hy
+  rcases nextRawG_mem hs.ctx hA hy' with ⟨c, hcm, _, hsame, hown, _, _⟩ | ⟨o, rev, hcr, rfl⟩
   · obtain ⟨a1, a2, a3, a4, a5, a6, a7, a8⟩ := hn.pods c hcm
     refine ⟨hown, by rw [hsame.mem]; exact a2, by rw [hsame.sel]; exact a3, by rw [hsame.name, hsame.ord]; exact a4,
       by rw [hsame.ord]; exact a5, by rw [hsame.ord]; exact a6, by rw [hsame.stOk]; exact a7, ?_,
@@ -143,7 +152,7 @@ theorem rawNext_pod (hs : NSC h j) (hp : Pol hs.norm) {y : CPod} (hy : y ∈ raw
       unfold Pod.fs Pod.failed Pod.succeeded at hfs ⊢; rw [← hsame.phase]; exact hfs
   · rw [settleOne_mkPod]
     have hb := bOf_le hn
-    have hr0 := (hp.facts.cre o rev hcr).1
+    have hr0 := (hA.cre o rev hcr).1
     have hr := hr0
     unfold inRange at hr
     simp only [Bool.and_eq_true, decide_eq_true_eq] at hr
@@ -171,6 +180,10 @@ theorem length_split_le {l : List CPod} {D : List Int} (hnd : (l.map (·.pod.ord
   omega
 
 /-- the measure of the next settled world -/
+theorem rawNext_nodup (hs : NSC h j) (hp : Pol hs.norm) : ((rawNext hs.norm).map (·.pod.ord)).Nodup := by
+  obtain ⟨A, hA, hsub⟩ := hp.sub
+  exact (hsub.map _).nodup (nextRawG_ords_nodup hs.ctx hA)
+
 theorem muPods_next (hs : NSC h j) (hp : Pol hs.norm) :
     muPods (nextW h j) = muOf j.view hs.norm.updRev.name (desired (replicasOf j.view) j.view.slots) (rawNext hs.norm) := by
   have hn := hs.norm
@@ -180,22 +193,23 @@ theorem muPods_next (hs : NSC h j) (hp : Pol hs.norm) :
   have hupd : updName (nextW h j) = hn.updRev.name := by
     unfold updName
     rw [nextW_last hs hp]; rfl
-  rw [muPods_eq, hD, hupd, muOf_keyPerm (nextW_pods hs hp) (nextRawG_ords_nodup hs.ctx hp.facts), hview]
+  rw [muPods_eq, hD, hupd, muOf_keyPerm (nextW_pods hs hp) (rawNext_nodup hs hp), hview]
   rfl
 
 /-- **the measure, one round**: never up; down whenever an `Event` happens -/
-theorem mu_stepC (hs : NSC h j) (hp : Pol hs.norm) :
+theorem mu_stepC (hs : NSC h j) (hp : Pol hs.norm) (hpart : PartOk j.view)
+    (hf : ActFacts j.view hs.norm.curRev.name hs.norm.updRev.name (bOf j) (EOf j) j.pods hs.norm.recon.1.acts) :
     muPods (nextW h j) ≤ muPods j ∧
     (Event (bOf j) (EOf j) j.pods hs.norm.recon.1.acts → muPods (nextW h j) < muPods j) := by
   have hn := hs.norm
   rw [muPods_next hs hp, muPods_eq j, hn.updName]
-  exact mu_stepG hs.ctx hp.facts hn.part _ (mem_desired_iff hn)
+  exact mu_stepG hs.ctx hf hpart _ (mem_desired_iff hn)
 
 /-- **a round keeps a normal, settled world normal and settled** -/
 theorem nextW_ns (hs : NSC h j) (hp : Pol hs.norm) : NSC h (nextW h j) := by
   have hn := hs.norm
   have hkp := nextW_pods hs hp
-  have hraw_nd := nextRawG_ords_nodup hs.ctx hp.facts
+  have hraw_nd := rawNext_nodup hs hp
   have hpods : ∀ x ∈ (nextW h j).pods, ∃ y ∈ rawNext hn, key y = key x := fun x hx => hkp.mem hx
   have hview := nextW_view hs hp
   have hrep : replicasOf (nextW h j).view = replicasOf j.view := by rw [hview]; rfl
@@ -204,11 +218,11 @@ theorem nextW_ns (hs : NSC h j) (hp : Pol hs.norm) : NSC h (nextW h j) := by
   have hroom : ((nextW h j).pods.filter (fun c => !(desired (replicasOf j.view) j.view.slots).contains c.pod.ord)).length ≤
       (j.pods.filter (fun c => !(desired (replicasOf j.view) j.view.slots).contains c.pod.ord)).length := by
     rw [(hkp.filter (fun c => !(desired (replicasOf j.view) j.view.slots).contains c.pod.ord) (fun _ => rfl)).length]
-    exact (step_condemnedG hs.ctx hp.facts _ (mem_desired_iff hn)).1
-  refine ⟨⟨?_, ?_, ?_, ?_, ?_, ?_, ?_, ?_, ?_, ?_⟩, settle_idPos _, settle_settled _, ?_⟩
+    obtain ⟨A, hA, hsub⟩ := hp.sub
+    exact le_trans (hsub.filter _).length_le (step_condemnedG hs.ctx hA _ (mem_desired_iff hn)).1
+  refine ⟨⟨?_, ?_, ?_, ?_, ?_, ?_, ?_, ?_, ?_⟩, settle_idPos _, settle_settled _, ?_⟩
   · rw [nextW_eq hs hp]
     exact ⟨hn.spec.paused, hn.spec.sel, hn.spec.del, hn.spec.rep, hn.spec.r0, hn.spec.strat, hn.spec.lim⟩
-  · rw [hview]; exact hn.part
   · intro x hx
     obtain ⟨y, hy, hk⟩ := hpods x hx
     obtain ⟨a1, a2, a3, a4, a5, a6, a7, a8, -⟩ := rawNext_pod hs hp hy
